@@ -249,6 +249,7 @@ class FnView:
         self.facts = self.facts + extra
         self.facts = self.facts + flag_facts(fn, self.facts, self.cx)
         self.facts = self.facts + any_eq_facts(prog, self.facts)
+        self.facts = self.facts + option_pred_facts(prog, self.facts)
 
     @classmethod
     def get(cls, prog, fn):
@@ -269,6 +270,39 @@ class FnView:
                     continue
                 out.append((bb, t, ci))
         return out
+
+
+def option_pred_facts(prog, facts):
+    """`opt.is_some_and(|v| p(v))` / `res.is_ok_and(..)` / `opt.is_none_or(..)`: true = Some and p(payload); false = None or
+    not p(payload) (a disjunction: recorded as an ("all", ..) fact — whichever member holds, it must be a recognised check)"""
+    from .guards import norm_cond
+    out = []
+    for (e, fa) in facts:
+        if not (fa[0] == "cond" and fa[1] == "other" and isinstance(fa[2], tuple) and fa[2]):
+            continue
+        core, pos = pred_core(fa[2])
+        if not (is_call(core) and core[1].rsplit("::", 1)[-1] in ("is_some_and", "is_ok_and", "is_none_or") and len(core[2]) == 2
+                and core[2][1][0] == "closure"):
+            continue
+        nm = core[1].rsplit("::", 1)[-1]
+        X = core[2][0]
+        body = closure_body(prog, core[2][1], {2: ("some", X) if "option" in core[1] else ("ok", X)})
+        if body is None:
+            continue
+        kind, a, b, bpos = norm_cond(body)
+        H = fa[4] if pos else (not fa[4])
+        inner = lambda truth: ("cond", kind, a, b, truth == bpos)
+        if nm in ("is_some_and", "is_ok_and"):
+            if H:
+                out += [(e, ("succ", X, True)), (e, inner(True))]
+            else:
+                out.append((e, ("all", (("succ", X, False), inner(False)))))
+        else:
+            if H:
+                out.append((e, ("all", (("succ", X, False), inner(True)))))
+            else:
+                out += [(e, ("succ", X, True)), (e, inner(False))]
+    return out
 
 
 def any_eq_facts(prog, facts):
@@ -476,6 +510,99 @@ def success_sinks(H):
     return ok_sinks(H)
 
 
+def reach_flagaware(fn, v, start):
+    """blocks reachable from `start`, not following the infeasible side of a flag test: at a test of a boolean local all of whose
+    definitions on the way from `start` are the same constant, only the matching edge is taken (`ok = false; .. if !ok { Err }`)"""
+    tests = {}
+    for (e, fa) in v.own_facts:
+        if fa[0] == "cond" and fa[1] == "other" and isinstance(fa[2], tuple) and fa[2]:
+            core, pos = pred_core(fa[2])
+            if core[0] == "phi" and core[1][0] == fn.key:
+                tests.setdefault(e[0], []).append((e, core[1][1], fa[4] if pos else (not fa[4])))
+    seen = set()
+    todo = [start]
+    plain = fn.reach(start)
+    while todo:
+        b = todo.pop()
+        if b in seen:
+            continue
+        seen.add(b)
+        allowed = None
+        if b in tests:
+            L = tests[b][0][1]
+            before = fn.reach(start, stop=frozenset({b}))      # on the way from start to this test (not around a loop again)
+            ds = [d for d in fn.defs().get(L, []) if d[0] in ("assign", "call") and d[1] in before and d[1] != b]
+            vals = set()
+            for d in ds:
+                if d[0] == "assign" and d[3]["k"] == "use" and "const" in d[3]["op"] and "bits" in d[3]["op"]["const"]:
+                    vals.add(d[3]["op"]["const"]["bits"] != "0")
+                else:
+                    vals.add(None)
+            if ds and len(vals) == 1 and None not in vals:
+                # every path from start to the test passes one of these definitions?
+                cut = frozenset((p, d[1]) for d in ds for (p, _l) in fn.preds().get(d[1], ()))
+                if b not in fn.reach(start, removed=cut) or start in {d[1] for d in ds}:
+                    c = next(iter(vals))
+                    allowed = {e for (e, _L, T) in tests[b] if T == c}
+        for (t, lab) in fn.succs()[b]:
+            if allowed is not None and (b, t, lab) not in allowed:
+                continue
+            todo.append(t)
+    return seen
+
+
+def fail_refuses(fn, v, edge, sinks=()):
+    """the FAIL side of a check refuses: plainly (fail_is_error), or once the infeasible sides of flag tests are discounted"""
+    if fail_is_error(fn, edge, sinks):
+        return True
+    r = reach_flagaware(fn, v, edge[1])
+    ws = [(b, k) for (b, k, _) in ret_writes(fn) if b in r]
+    return bool(ws) and all(k in ("err", "residual") for _, k in ws) and not (r & set(sinks))
+
+
+def flag_carried(fn, v, pass_edges, starts=(0,), within=None, fail_ok=None):
+    """PASS edges carried by a boolean flag: `let ok = a && ..; .. if !ok { return Err }`.  The edge of a test of a flag local on
+    which the flag has truth value T is a PASS edge if every definition of the flag that can give T (a constant T, or a computed
+    value) sits at a block that cannot be reached from `starts` without crossing a PASS edge already known — whichever such
+    definition reached the test, the check had passed — and the other side of the test refuses (fail_ok(edge))."""
+    out = set(pass_edges)
+    for _round in range(3):
+        added = False
+        for (e, fa) in v.own_facts:
+            if e in out or not (fa[0] == "cond" and fa[1] == "other" and isinstance(fa[2], tuple) and fa[2]):
+                continue
+            core, pos = pred_core(fa[2])
+            if not (core[0] == "phi" and core[1][0] == fn.key):
+                continue
+            T = fa[4] if pos else (not fa[4])          # truth value of the flag local on this edge
+            L = core[1][1]
+            ds = [d for d in fn.defs().get(L, []) if d[0] in ("assign", "call")]
+            if not ds or (within is not None and not all(d[1] in within for d in ds)):
+                continue
+            cons = []
+            for d in ds:
+                if d[0] == "assign" and d[3]["k"] == "use" and "const" in d[3]["op"] and "bits" in d[3]["op"]["const"]:
+                    if (d[3]["op"]["const"]["bits"] != "0") == T:
+                        cons.append(d[1])
+                else:
+                    cons.append(d[1])
+            if not cons:
+                continue
+            r = set()
+            for s0 in starts:
+                r |= fn.reach(s0, removed=frozenset(out))
+            if any(b in r for b in cons):
+                continue
+            others = [e2 for (e2, f2) in v.own_facts if e2[0] == e[0] and e2 != e and f2[0] == "cond" and f2[2] == fa[2]]
+            if fail_ok is not None and not all(fail_ok(e2) for e2 in others):
+                continue
+            out.add(e)
+            added = True
+        if not added:
+            break
+    return out
+
+
 def pass_edges_of(prog, v, mechanisms, sinks, require_fail_err=True, depth=0):
     """PASS edges of the mechanisms in the function of view v: (i) branch edges whose fact matches and whose FAIL side
     refuses; (ii) the success edge of `helper(..)?` when, inside the helper (seen with the call's arguments), every path to a
@@ -500,7 +627,7 @@ def pass_edges_of(prog, v, mechanisms, sinks, require_fail_err=True, depth=0):
             # the same switch yields both edges; take PASS edges only if the FAIL side refuses
             sw = edge[0]
             fails = [e for (e, f2) in v.facts if e[0] == sw and m(f2) == "fail"]
-            if require_fail_err and not all(fail_is_error(fn, e, sinks) for e in fails):
+            if require_fail_err and not all(fail_refuses(fn, v, e, sinks) for e in fails):
                 continue
             if r == "pass":
                 pass_edges.add(edge)
@@ -524,6 +651,11 @@ def pass_edges_of(prog, v, mechanisms, sinks, require_fail_err=True, depth=0):
                     continue
                 pass_edges.add(edge)
                 found += [n_ + " (in %s)" % H.name for n_ in fnd]
+    if pass_edges:
+        more = flag_carried(fn, v, pass_edges, fail_ok=(lambda e: fail_refuses(fn, v, e, sinks)) if require_fail_err else None)
+        if more - pass_edges:
+            found.append("carried by a flag")
+        pass_edges = more
     return pass_edges, found
 
 
@@ -924,9 +1056,12 @@ def _forall(prog, v, src_pred, mechanisms, sinks, require_fail_err, depth):
                 if e[0] not in lp["body"] or m(fact) != "pass":
                     continue
                 fails = [e2 for (e2, f2) in v.facts if e2[0] == e[0] and m(f2) == "fail"]
-                if require_fail_err and not all(fail_is_error(fn, e2) for e2 in fails):
+                if require_fail_err and not all(fail_refuses(fn, v, e2) for e2 in fails):
                     continue
                 edges.add(e)
+        if edges:
+            edges = flag_carried(fn, v, edges, starts=tuple(lp["some_targets"]) or (lp["header"],), within=lp["body"],
+                                 fail_ok=(lambda e: fail_refuses(fn, v, e)) if require_fail_err else None)
         _, back = body_reach(fn, lp, list(lp["some_targets"]), removed_edges=edges)
         early = [e for (e, c) in lp["exits"] if c == "break"]
         exh = {e for (e, c) in lp["exits"] if c == "exhausted"}
@@ -963,10 +1098,13 @@ def _forall(prog, v, src_pred, mechanisms, sinks, require_fail_err, depth):
                 if m(fact) != "pass":
                     continue
                 fails = [e2 for (e2, f2) in cv.facts if e2[0] == e[0] and m(f2) == "fail"]
-                if require_fail_err and not all(closure_refuses(cf, e2, ci["name"]) for e2 in fails):
+                if require_fail_err and not all(closure_refuses(cf, e2, ci["name"], prog) for e2 in fails):
                     continue
                 edges.add(e)
+        if edges:
+            edges = flag_carried(cf, cv, edges, fail_ok=(lambda e: closure_refuses(cf, e, ci["name"], prog)) if require_fail_err else None)
         cont = closure_continue_sinks(prog, cf, cv, ci["name"], [mk(item) for _, mk in mechanisms])
+        cont = {b_ for b_ in cont if not returned_flag_guarded(cf, cv, edges, b_, ci["name"])}
         if not edges and cont:
             continue
         if sep(cf, edges, cont):
@@ -1023,7 +1161,34 @@ def _forall(prog, v, src_pred, mechanisms, sinks, require_fail_err, depth):
     return None, why
 
 
-def closure_refuses(cf, edge, consumer):
+def returned_flag_guarded(cf, cv, edges, b, consumer):
+    """a per-element closure returns a boolean flag (possibly negated): the return lets the traversal continue only for one truth
+    value of the flag; guarded if every definition of the flag that can give that value sits behind a PASS edge"""
+    if consumer not in ("all", "any"):
+        return False
+    for (bb, k, rv) in ret_writes(cf):
+        if bb != b or k != "other":
+            continue
+        T = cv.cx.rvalue(rv, (cf.key, bb, 0))
+        core, pos = pred_core(T)
+        if not (core[0] == "phi" and core[1][0] == cf.key):
+            return False
+        want_ret = (consumer == "all")           # the returned value that lets the traversal continue
+        want_flag = want_ret if pos else (not want_ret)
+        ds = [d for d in cf.defs().get(core[1][1], []) if d[0] in ("assign", "call")]
+        cons = []
+        for d in ds:
+            if d[0] == "assign" and d[3]["k"] == "use" and "const" in d[3]["op"] and "bits" in d[3]["op"]["const"]:
+                if (d[3]["op"]["const"]["bits"] != "0") == want_flag:
+                    cons.append(d[1])
+            else:
+                cons.append(d[1])
+        r = cf.reach(0, removed=frozenset(edges))
+        return bool(ds) and bool(edges) and not any(x in r for x in cons)
+    return False
+
+
+def closure_refuses(cf, edge, consumer, prog=None):
     """the FAIL side of a check inside a per-element closure refuses: returns only Err (Result closures) / the value that
     stops the consumer (false for all, true for any)"""
     from .guards import returns_result
@@ -1035,9 +1200,32 @@ def closure_refuses(cf, edge, consumer):
         return False
     want = "0" if consumer == "all" else "1"
     for (b, k, rv) in ws:
-        if not (k == "other" and rv.get("k") == "use" and "const" in rv["op"] and rv["op"]["const"].get("bits") == want):
+        if k == "other" and rv.get("k") == "use" and "const" in rv["op"] and rv["op"]["const"].get("bits") == want:
+            continue
+        # a returned flag (possibly negated) whose definitions on this side are all the same constant
+        ok_flag = False
+        if k == "other" and prog is not None:
+            T = TermCx(prog, cf).rvalue(rv, (cf.key, b, 0))
+            if T is not None:
+                core, pos = pred_core(T)
+                if core[0] == "phi" and core[1][0] == cf.key:
+                    before = cf.reach(edge[1], stop=frozenset({b}))
+                    ds = [d for d in cf.defs().get(core[1][1], []) if d[0] in ("assign", "call") and d[1] in before]
+                    vals = set()
+                    for d in ds:
+                        if d[0] == "assign" and d[3]["k"] == "use" and "const" in d[3]["op"] and "bits" in d[3]["op"]["const"]:
+                            vals.add(d[3]["op"]["const"]["bits"] != "0")
+                        else:
+                            vals.add(None)
+                    cut = frozenset((p, d[1]) for d in ds for (p, _l) in cf.preds().get(d[1], ()))
+                    if ds and len(vals) == 1 and None not in vals and (b not in cf.reach(edge[1], removed=cut) or edge[1] in {d[1] for d in ds}):
+                        flag = next(iter(vals))
+                        ret = flag if pos else (not flag)
+                        ok_flag = (ret == (want == "1"))
+        if not ok_flag:
             return False
     return True
+
 
 
 def closure_continue_sinks(prog, cf, cv, consumer, matchers):
